@@ -32,7 +32,7 @@ namespace GeographicLib {
     , _fm1( 1 - _f )
     , _e2( _f * (2 - _f) )
     , _e2m1( _fm1 * _fm1 )
-    , _e12( _e2/(1 - _e2) )
+    , _e12( _e2/_e2m1 )        // _e2m1 = 1 - _e2 without cancellation
     , _e12p1( 1 / _e2m1 )
     , _n( _f/(2 - _f) )
     , _e( sqrt(fabs(_e2)) )
